@@ -1,4 +1,147 @@
+"""chef workers under contract (C11)."""
+import z3
+from pyvc.vals import *  # noqa
+from pyvc.task import Task
+from pyvc.vc import veq
+from pyvc.loops import LoopSpec
+from pyvc.libfile import RFile, WFile, hdrlen
+from pyvc.libnp import reduce_const
+from contracts.common import sym_path, size_of
+from contracts.ondisk import DiskFile
+from props.combine_kernels import selection
+
+CH = "amr_kitchen.chef.chef."
+I = z3.IntSort()
+R_ = z3.RealSort()
+
+
+class UserPfileKnife(Task):
+    """chefs_knife_user_pfile: for every FAB of an OnDisk file, in disk order: hdrline(range, nkept+ncomps) followed by the F
+    order bytes of [kept components (bit-identical), recipe(field_indexes, box)] ; returned offsets are the header
+    positions and mins/maxs are MIN/MAX over exactly the array that is written.  The recipe is an uninterpreted
+    deterministic function of the box data."""
+    prop = "C11"
+    reach = "U"
+    qual = CH + "chefs_knife_user_pfile"
+
+    def __init__(self, multi):
+        self.multi = multi
+        self.name = f"chefs_knife_user_pfile[{'n components' if multi else '1 component'}]"
+
+    def setup(self, ex):
+        ctx = ex.ctx
+        ctx.ghost["ndims"] = 3
+        disk = DiskFile(ctx, "Fr", 3, canonical=True)
+        pw, Fw = sym_path(ctx, "Fw", exists=False)
+        ctx.assume(Fw != disk.F)
+        nk, K, keep = selection(ctx, "keep", disk.nc)
+        ncomp = z3.Int("ncomp") if self.multi else 1
+        if self.multi:
+            ctx.assume(ncomp >= 1)
+        RF = z3.Function("RECIPE", I, I, I, I, I, R_)     # (box data position, i, j, k, component)
+        OUT = z3.Function("OUTPOS", I, I)
+        ctx.assume(OUT(0) == 0)
+        fields = {"a": 0}
+        calls = []
+
+        def recipe(ex_, args, kw):
+            fi, arr = args[0], args[1]
+            calls.append((fi is fields, arr))
+            # the data handed to the recipe is the box at hand: its identity is the FAB's data position
+            pos = getattr(arr, "fab_data0", None)
+            if pos is None:
+                src = getattr(arr, "reshaped_from", None)
+                pos = src[0].from_file[1] if src and getattr(src[0], "from_file", None) else None
+            if pos is None:
+                raise Unsupported("recipe called on something else than the box array read from the file")
+            shape3 = list(arr.shape[:3])
+            if self.multi:
+                return NDArray(shape3 + [ncomp], lambda ix: RF(to_z3(pos), *[to_z3(i) for i in ix]))
+            return NDArray(shape3, lambda ix: RF(to_z3(pos), *[to_z3(i) for i in ix], z3.IntVal(0)))
+        recipe._pyvc_builtin = True
+
+        def alldata(j):
+            fb = disk.fab(j)
+            return NDArray(list(fb.shape) + [nk + ncomp],
+                           lambda ix: zite(to_z3(ix[-1]) < nk, fb.value(ix[:-1], K(to_z3(ix[-1]))),
+                                           RF(to_z3(fb.data0), *[to_z3(i) for i in ix[:-1]], to_z3(ix[-1]) - nk)))
+
+        def facts(j):
+            j = to_z3(j)
+            fb = disk.fab(j)
+            return z3.And(disk.facts(j), z3.Implies(z3.And(j >= 0, j < disk.m),
+                          OUT(j + 1) == OUT(j) + hdrlen(fb.lo, fb.hi, nk + ncomp) + 8 * size_of(ctx, list(fb.shape) + [nk + ncomp])))
+
+        def rec(j):
+            fb = disk.fab(j)
+            return [("hdr", (tuple(fb.lo), tuple(fb.hi), nk + ncomp), None), ("ser", alldata(j), "F")]
+
+        def red(kind):
+            def row(j):
+                ad = alldata(j)
+                fb = disk.fab(j)
+                cache = {}
+
+                def el(ix):
+                    key = str(ix[0])
+                    if key not in cache:
+                        cache[key] = reduce_const(ex, kind, list(fb.shape), lambda r, c=ix[0]: ad.elem(tuple(r) + (c,)))
+                    return cache[key]
+                return NDArray([nk + ncomp], el)
+            return row
+
+        def wtemplate(k):
+            wf = WFile(pw, Fw)
+            wf.nrec, wf.rec, wf.recstart, wf.rec_size = k, rec, (lambda j: OUT(to_z3(j))), 2
+            wf.pos = OUT(to_z3(k))
+            return wf
+
+        def template(ex_, fr, k, entry):
+            k3 = to_z3(k)
+            br = RFile(disk.path, disk.F)
+            br.pos = disk.P(k3)
+            return {"offsets": SymSeq(k, lambda j: OUT(to_z3(j))), "mins": SymSeq(k, red("min")), "maxs": SymSeq(k, red("max")),
+                    "bfr": br, "bfw": wtemplate(k),
+                    "__assume__": [z3.And(k3 >= 0, k3 <= disk.m), facts(k3)], "__assert__": [("in-range", k3 <= disk.m)]}
+        self.loopspecs = {(self.qual, 0): LoopSpec(template)}
+        args = {"recipe": recipe, "bfpath": disk.path, "newbfpath": pw, "field_indexes": fields, "ids_keep": keep,
+                "sp_indexes": [], "rx_indexes": [], "sp_start": None, "sp_end": None, "id_temp": None, "idx_O2": None}
+        return {"args": [args], "m": disk.m, "OUT": OUT, "wtemplate": wtemplate, "Fw": Fw, "red": red, "calls": calls,
+                "nk": nk, "ncomp": ncomp}
+
+    def post(self, ex, inp, out):
+        ctx = ex.ctx
+        ctx.oblige("raises-nothing", out.kind == "ret", "P", note=str(out.exc) if out.kind != "ret" else "")
+        if out.kind != "ret":
+            return
+        m, OUT = inp["m"], inp["OUT"]
+        v = out.value
+        ok = isinstance(v, tuple) and len(v) == 3
+        ctx.oblige("post.returns-triple", ok, "P")
+        if not ok:
+            return
+        ctx.oblige("post.offsets", veq(ctx, v[0], SymSeq(m, lambda j: OUT(to_z3(j)))), "P")
+        for which, val in (("min", v[1]), ("max", v[2])):
+            row = inp["red"](which)
+            exp = NDArray([m, inp["nk"] + inp["ncomp"]], lambda ix: row(ix[0]).elem((ix[1],)))
+            okv = isinstance(val, NDArray) and val.ndim == 2
+            ctx.oblige(f"post.{which}s-are-extrema-of-the-written-array", veq(ctx, val, exp) if okv else False, "P")
+        wfs = ctx.ghost.get("wfiles", [])
+        ctx.oblige("frame.writes-only-output", len(wfs) == 1 and wfs[0].F is inp["Fw"], "P")
+        if len(wfs) == 1:
+            exp = inp["wtemplate"](m)
+            exp.closed = True
+            ctx.oblige("post.output-file-content", veq(ctx, wfs[0], exp), "P")
+        ctx.oblige("post.recipe-gets-field-indexes", all(c[0] for c in inp["calls"]), "P")
+
+
 def chef_tasks(prop):
-    return []
+    return [UserPfileKnife(False), UserPfileKnife(True)]
+
+
 def chef_canaries():
-    return []
+    f = "amr_kitchen/chef/chef.py"
+    return [("user knife: minima taken on the new data only",
+             [(f, "                min_values = np.min(alldata, axis=(0, 1, 2))\n                max_values = np.max(alldata, axis=(0, 1, 2))\n                mins.append(min_values)\n                maxs.append(max_values)\n                bfw.write(alldata.flatten(order=\"F\").tobytes())\n\n    return offsets, np.array(mins), np.array(maxs)\n\nclass Chef",
+               "                min_values = np.min(newdata, axis=(0, 1, 2))\n                max_values = np.max(alldata, axis=(0, 1, 2))\n                mins.append(min_values)\n                maxs.append(max_values)\n                bfw.write(alldata.flatten(order=\"F\").tobytes())\n\n    return offsets, np.array(mins), np.array(maxs)\n\nclass Chef")],
+             ["chefs_knife_user_pfile[n components]"])]
